@@ -2119,6 +2119,22 @@ package desync
 //@ ghost var $named bool
 //@ ghost var $gbprev int
 
+//# C06 (Google cloud storage): an upload is reported as done only if the object writer for this chunk's object name
+//# was fed the storage bytes and then closed, and both the copy and the Close succeeded (GCS commits an object at Close:
+//# an upload whose Close error is dropped reports chunks as stored that are not)
+//@ ghost var $gcsCopied bool
+//@ ghost var $gcsClosed bool
+//@ func (s GCStore) StoreChunk
+//@   prop C06
+//@   safety none
+//@   ghost@entry $gcsCopied = false
+//@   ghost@entry $gcsClosed = false
+//@   ghost@after:Copy $gcsCopied = $r1 == nil
+//@   ghost@after:Close $gcsClosed = $r0 == nil && $gcsCopied
+//@   ghost@after:nameFromID $nm = $r0
+//@   oncall Object: requires $arg0 == $nm
+//@   ensures r0 == nil ==> $gcsCopied && $gcsClosed
+
 //# C06 / C14: an upload is reported as done only if a PutObject of this chunk's object name, with the chunk's storage
 //# bytes, succeeded - for every retry budget (also 0 or negative: one attempt is always made), every number of failures
 //@ ghost var $put bool
